@@ -1,10 +1,13 @@
 """C03 -- symmetric eigen-solvers return a valid spectral decomposition.
 Engine S: the non-iterative pieces (characteristic polynomial of the default solver with the cubic solver abstracted, 2D
-closed forms, cross-product helper, Harari's eigenvalue formulas) are regenerated from /repo as Coq definitions and the
-theorems re-checked.  Execution (tie + failing-input search): all 8 solvers of stensor<N,double>, N=2,3, are run on a
-structured generator and the property predicate (residual, orthonormality, reconstruction, values-only API, finiteness;
-tolerances relative to the norm, per solver family and conditioning class) is evaluated in Python on the real outputs."""
-import os, sys, json
+closed forms, cross-product helper, computeEigenVector and find_perpendicular_vector of the default solver, Harari's eigenvalue
+formulas, the Householder reduction sytrd3, and ONE rotation of the cyclic Jacobi method syevj3 from a general state) are
+regenerated from /repo as Coq definitions and the theorems re-checked; the Jacobi rotation is lifted to any number of sweeps by
+induction in a small hand model (C03Jacobi.v).  Execution (tie + failing-input search): all 8 solvers of stensor<N,double>,
+N=2,3, are run on a structured generator and the property predicate (residual, orthonormality, reconstruction, values-only API,
+finiteness; tolerances relative to the norm, per solver family and conditioning class) is evaluated in Python on the real
+outputs; find_perpendicular_vector and computeEigenVector are also run directly."""
+import os, sys, math, re
 from concurrent.futures import ThreadPoolExecutor
 sys.path.insert(0, os.path.dirname(os.path.abspath(__file__)))
 from vlib import guarded_main
@@ -12,6 +15,45 @@ import gen
 
 SUPPORT = ["src/Exception/ContractViolation.cxx"]
 tolerance = gen.tolerance
+PREFIX = ["C03Spec.v", "C03Tactics.v", "C03Jacobi.v", "C03Statements.v", "C03StatementsB.v"]
+# chains compiled side by side after the common prefix; solvers / helper runs whose concrete failures explain a broken chain
+CHAINS = [
+    ("default", ["C03Proofs.v", "Properties_C03.v"], ["TFEL"]),
+    ("jacobi", ["C03ProofsJacobi.v", "Properties_C03_jacobi.v"], ["FSESJACOBI"]),
+    ("evec", ["C03ProofsEvec.v", "Properties_C03_evec.v"], ["TFEL", "perp", "evec"]),
+    ("householder+harari", ["C03ProofsHouseholder.v", "Properties_C03_householder.v", "C03ProofsHarari.v", "Properties_C03_harari.v"],
+     ["FSESQL", "FSESCUPPEN", "FSESHYBRID", "HARARI"]),
+]
+
+
+def bucket(dev):
+    """magnitude class of a deviation (relative to the norm): known findings are listed per class AND magnitude, so that a larger
+    deviation inside an already failing class is a new violation.  Classes: <= 1e-6, <= 1e-4, <= 1e-2, above (`gt1e-2`)."""
+    for e in (-6, -4, -2):
+        if dev <= 10.0 ** e:
+            return "le1e%d" % e
+    return "gt1e-2"
+
+
+def helper_inputs(rng, n):
+    """vectors for find_perpendicular_vector (every branch: each component smallest, ties, zeros) and (tensor, eigenvalue) pairs
+    with a well separated spectrum for computeEigenVector"""
+    P, V = [], []
+    fixed = [(3, 2, 6), (2, 3, 6), (6, 3, 2), (6, 2, 3), (2, 6, 3), (3, 6, 2), (1, 0, 0), (0, 1, 0), (0, 0, 1), (1, 1, 0), (0, 1, 1), (1, 0, 1),
+             (1, 1, 1), (-1, 2, -2), (2, -1, 2), (2, 2, -1), (0.5, -0.25, 0.125), (1e-3, 1.0, 1e3), (1e3, 1e-3, 1.0), (1.0, 1e3, 1e-3)]
+    for v in fixed:
+        nv = math.sqrt(sum(x * x for x in v))
+        P.append(("fix:perp(%s)" % ",".join("%g" % x for x in v), [x / nv for x in v]))
+    for k in range(n):
+        sc = 10.0 ** rng.uniform(-3, 3) if k % 3 == 0 else 1.0
+        P.append(("perp_%d" % k, [sc * rng.uniform(-1, 1) for _ in range(3)]))
+    for k in range(n):
+        lmb = sorted(rng.sample([-3.0, -2.0, -1.0, 0.5, 1.5, 2.5, 4.0], 3))
+        lmb = [x + rng.uniform(-0.2, 0.2) for x in lmb]
+        q = gen.rot_from_quat(rng) if k % 4 else [[1.0, 0, 0], [0, 1.0, 0], [0, 0, 1.0]]
+        s = gen.to_mandel(gen.sym_from(lmb, q), 3)
+        V.append(("evec_%d" % k, s, lmb[k % 3]))
+    return P, V
 
 
 def main(c):
@@ -35,30 +77,102 @@ def main(c):
             if fail:
                 c.report("agree:" + t[1], "traced definition %s and the double instantiation disagree: %s" % (t[1], l), {"line": l}, True)
     c.coverage["traces_validated_against_impl"] = nag
-    c.trusted("engine S tracer (cxx/sym/sym.hxx: operator overloads, path oracle, printer) and g++ template instantiation with Sym",
+    c.trusted("engine S tracer (cxx/sym/sym.hxx: operator overloads, path oracle, printer incl. the elision of tests whose two branches are identical) and g++ template instantiation with Sym",
               "substitution of tfel::math::CubicRoots for T=Sym only (props/C03/trace.cxx): roots are abstracted, the polynomial handed over is recorded",
-              "#define private public to reach the private helper cross_product",
+              "#define private public to reach the private helpers cross_product, find_perpendicular_vector, computeEigenVector (tracer and driver)",
+              "matrix wrappers of props/C03/trace.cxx that start fses::syevj3 on a general state and stop it after its first rotation (first access to A after Q was updated); std::fpclassify(Sym) = FP_ZERO only for the constant 0",
               "Python evaluation of the property predicate in binary64 (props/C03/gen.py), Python reference Jacobi for the values-only API",
               "drivers compiled with -DNDEBUG as every build type of /repo's CMake configuration does")
 
     # ---- the real code on the structured generator (runs while Coq compiles)
     cases = gen.cases(c.rng, c.pick(300, 5000))
+    P, V = helper_inputs(c.rng, c.pick(300, 3000))
     inp = "\n".join("%s %d %s" % (cs[0], cs[2], " ".join(float.hex(x) for x in cs[3])) for cs in cases) + "\n"
-    with ThreadPoolExecutor(max_workers=3) as ex:
+    inp += "".join("P %s %s\n" % (i, " ".join(float.hex(x) for x in v)) for (i, v) in P)
+    inp += "".join("V %s %s %s\n" % (i, " ".join(float.hex(x) for x in s), float.hex(l)) for (i, s, l) in V)
+    results = {}
+    with ThreadPoolExecutor(max_workers=4) as ex:
         frun = ex.submit(c.run, [driver], 900, inp)
-        res = c.coq([gen_v, "C03Spec.v", "C03Statements.v", "C03Proofs.v", "Properties_C03.v"], timeout=900)
-        res_h = c.coq(["C03ProofsHarari.v", "Properties_C03_harari.v"], timeout=600) if res.files and res.files[0][1] else None
+        pre = c.coq([gen_v] + PREFIX, timeout=900)
+        if pre.ok:
+            futs = [(name, files, ex.submit(c.coq, files, 900)) for (name, files, _s) in CHAINS]
+            for (name, files, f) in futs:
+                results[name] = f.result()
         rc, out, err = frun.result()
+    if not pre.ok:
+        # nothing could be stated: every theorem of every chain is an undischarged obligation
+        for (_n, files, _s) in CHAINS:
+            for fn in files:
+                if fn.startswith("Properties"):
+                    c.coverage["obligations"] += len(re.findall(r"^Theorem ", open(os.path.join(c.dir, "coq", fn)).read(), flags=re.M))
+    for (name, files, _s) in CHAINS:
+        r = results.get(name)
+        if r is None:
+            continue
+        reached = [x[0] for x in r.files]
+        for fn in files:
+            if fn.startswith("Properties") and fn not in reached:   # a proofs file broke before this property file was reached
+                c.coverage["obligations"] += len(re.findall(r"^Theorem ", open(os.path.join(c.dir, "coq", fn)).read(), flags=re.M))
     if rc != 0:
         c.report("run", "driver failed (rc=%d): %s" % (rc, err[-500:]), {"stderr": err[-3000:]}, False)
         return
     byid = {cs[0]: cs for cs in cases}
+    pby = dict(P)
+    vby = {i: (s, l) for (i, s, l) in V}
     worst = {}
-    failing = {}     # solver -> list of keys
+    failing = {}     # solver / helper -> keys of NEW violations (not of known findings)
     nres = 0
     for l in out.splitlines():
         t = l.split()
-        if not t or t[0] != "R":
+        if not t:
+            continue
+        if t[0] == "P":
+            # find_perpendicular_vector: unit and orthogonal to its (non null) argument
+            x = pby[t[1]]
+            y = [float.fromhex(v) for v in t[2:5]]
+            c.count(1, ("perp", t[1]), True)
+            nx = math.sqrt(sum(v * v for v in x))
+            bad = None
+            if not all(math.isfinite(v) for v in y):
+                bad = "non-finite result"
+            else:
+                un = abs(math.sqrt(sum(v * v for v in y)) - 1.0)
+                ort = abs(sum(a * b for a, b in zip(x, y))) / nx if nx > 0 else 0.0
+                if un > 1e-12 or ort > 1e-12:
+                    bad = "| |y| - 1 | = %.3g, |x.y|/|x| = %.3g (tolerance 1e-12)" % (un, ort)
+            if bad:
+                ax = [abs(v) for v in x]
+                br = "x%d-smallest" % ax.index(min(ax))
+                key = "perp:%s" % (t[1] if t[1].startswith("fix:") else br)
+                new = c.report(key, "StensorComputeEigenVectors<3>::find_perpendicular_vector(x) with x = %s returns y = %s: %s" % (x, y, bad),
+                         {"x": x, "x_hex": [float.hex(v) for v in x], "y": y, "how": "echo 'P id <hex x0 x1 x2>' | props/C03/driver"}, True)
+                if new:
+                    failing.setdefault("perp", []).append(key)
+            continue
+        if t[0] == "V":
+            s, lam = vby[t[1]]
+            v = [float.fromhex(z) for z in t[3:6]]
+            c.count(1, ("evec", t[1]), True)
+            a = gen.from_mandel(s)
+            nrm = max(abs(z) for r_ in a for z in r_)
+            bad = None
+            if t[2] != "ok":
+                bad = "status %s on a tensor with a well separated spectrum" % t[2]
+            elif not all(math.isfinite(z) for z in v):
+                bad = "non-finite result"
+            else:
+                un = abs(math.sqrt(sum(z * z for z in v)) - 1.0)
+                res = math.sqrt(sum((sum(a[i][k] * v[k] for k in range(3)) - lam * v[i]) ** 2 for i in range(3))) / nrm
+                if un > 1e-12 or res > 1e-8:
+                    bad = "| |v| - 1 | = %.3g, |A v - l v|/|A| = %.3g (tolerances 1e-12, 1e-8)" % (un, res)
+            if bad:
+                key = "evec:%s" % ("status" if t[2] != "ok" else "inaccurate")
+                new = c.report(key, "StensorComputeEigenVectors<3>::computeEigenVector(s, vp) with s = %s, vp = %r returns %s: %s" % (s, lam, v, bad),
+                         {"tensor_mandel": s, "vp": lam, "v": v, "how": "echo 'V id <hex s0..s5 vp>' | props/C03/driver"}, True)
+                if new:
+                    failing.setdefault("evec", []).append(key)
+            continue
+        if t[0] != "R":
             continue
         cid, n, solver, status = t[1], int(t[2]), t[3], t[4]
         cs = byid[cid]
@@ -70,6 +184,7 @@ def main(c):
         ev = [float.fromhex(x) for x in t[18:21]]
         vp, m = vals[:3], [vals[3:6], vals[6:9], vals[9:12]]
         mt = None
+        dev = 0.0
         if status != "ok":
             bad.append(("throw", status))
         else:
@@ -81,6 +196,7 @@ def main(c):
                     w = worst.setdefault((solver, n, cat), {})
                     w[k] = max(w.get(k, 0.0), mt[k])
                     if mt[k] > tolerance(solver, n, cat, k):
+                        dev = max(dev, mt[k])
                         bad.append(("inaccurate", "%s=%.3g > %.1g" % (k, mt[k], tolerance(solver, n, cat, k))))
         if nres % 1499 == 1:
             c.sample({"solver": solver, "N": n, "class": cat, "tensor": s, "eigenvalues": vp,
@@ -88,21 +204,28 @@ def main(c):
         if len(bad) > 1:
             bad = [(bad[0][0], "; ".join(b[1] for b in bad))]
         for kind, txt in bad:
-            key = "%s:%d:%s:%s" % (solver, n, cat, kind)
-            failing.setdefault(solver, []).append(key)
-            c.report(key, "stensor<%d,double>::computeEigenVectors/Values<%s> on the %s tensor %s returns eigenvalues %s, vectors(row major) %s, values-only %s: %s "
+            # fixed corpus entries are identified by their content, seeded ones by their class; deviations by their magnitude
+            where = cid if cid.startswith("fix:") else cat
+            key = "%s:%d:%s:%s" % (solver, n, where, kind)
+            if kind == "inaccurate":
+                key += ":" + bucket(dev)
+            new = c.report(key, "stensor<%d,double>::computeEigenVectors/Values<%s> on the %s tensor %s returns eigenvalues %s, vectors(row major) %s, values-only %s: %s "
                      "(tolerances relative to the norm)" % (n, solver, cat, s, vp, vals[3:], ev, txt),
                      {"solver": solver, "N": n, "class": cat, "tensor_mandel": s, "tensor_hex": [float.hex(x) for x in s],
                       "eigenvalues": vp, "eigenvectors_row_major": vals[3:], "values_only": ev, "metrics": mt,
                       "how": "echo '<id> %d <hex components>' | props/C03/driver (built by the check)" % n}, True)
-    c.coverage["rule"] = ("seeded structured generator (props/C03/gen.py): diagonal (fixed corpus incl. diag(a,0,0), ties, zero tensor), repeated, "
-                          "nearly repeated (relative gaps 1e-1..1e-15), badly scaled (1e-150..1e150, spreads 1e3..1e12), nearly diagonal, random rotations; "
-                          "N=2,3; 8 solvers; non-trivial = every class but `random`")
+            if new:   # known findings explain nothing: only new concrete failures may stand for a broken obligation
+                failing.setdefault(solver, []).append(key)
+    c.coverage["rule"] = ("seeded structured generator (props/C03/gen.py): diagonal (fixed corpus incl. diag(a,0,0), ties, zero tensor), exactly double eigenvalue with "
+                          "rational eigenvectors (fixed corpus, 76 tensors), repeated, nearly repeated (relative gaps 1e-1..1e-15), badly scaled (1e-150..1e150, spreads "
+                          "1e3..1e12), nearly diagonal, random rotations; N=2,3; 8 solvers; non-trivial = every class but `random`; plus direct runs of "
+                          "find_perpendicular_vector (%d vectors) and computeEigenVector (%d tensor/eigenvalue pairs)" % (len(P), len(V)))
     c.coverage["worst_observed"] = {"%s:%d:%s" % k: {kk: float("%.3g" % vv) for kk, vv in v.items()} for k, v in sorted(worst.items())}
-    c.notes.append("NOT proved (execution only): convergence/tolerance of Jacobi, QL, Cuppen, hybrid, Gte and Harari iterations/trigonometric forms, eigenvector "
-                   "construction of the default solver beyond the cross-product facts, finite-in => finite-out, rounding")
+    c.notes.append("NOT proved (execution only): convergence/tolerance of Jacobi, QL, Cuppen, hybrid, Gte and Harari iterations/trigonometric forms, the selection "
+                   "logic of StensorComputeEigenVectors<3>::computeEigenVectors around the proved helpers, the steps of syevj3 that set a negligible A(p,q) to zero, "
+                   "finite-in => finite-out, rounding")
 
-    # ---- broken obligations: explained by concrete failing inputs when execution found some for the same solver
+    # ---- broken obligations: explained by concrete failing inputs when execution found some for the same piece of code
     def explain(r, solvers):
         if r is None or r.ok:
             return
@@ -111,10 +234,10 @@ def main(c):
             c.notes.append("proof obligations %s no longer check; concrete failing inputs reported: %s" % ([f[2] for f in r.failed], sorted(set(hits))[:6]))
         else:
             c.coq_failures(r, None)
-    if res_h is not None and not res_h.ok and not res_h.theorems:
-        c.coverage["obligations"] += 1   # Properties_C03_harari.v was not reached: its theorem is an undischarged obligation
-    explain(res, ["TFEL"])
-    explain(res_h, ["HARARI"])
+    if not pre.ok:
+        c.coq_failures(pre, None)
+    for (name, _files, solvers) in CHAINS:
+        explain(results.get(name), solvers)
 
 
 guarded_main("C03", main)
